@@ -153,6 +153,9 @@ def shard_stream(sh):
         pool = TSV_CELLS if fmt == 'ob-raw-dump' else ['a', 'b', '', 'a,b', 'x "y"', ' s', 'é']
         for i in range(n):
             cells = [rng.choice(pool) for _ in range(k - 1)] + [rng.choice(['0', '1'])]
+            if fmt == 'ob-raw-dump' and rng.random() < 0.12:
+                # a well-formed row whose fields are all empty (or blank): k fields, k-1 tabs - still a row
+                cells = [rng.choice(['', '', ' ']) for _ in range(k)]
             bad = rng.random() < 0.3
             truncated = False
             if bad:
@@ -160,8 +163,6 @@ def shard_stream(sh):
                 truncated = fmt == 'csv-raw' and rng.random() < 0.4
             if fmt == 'ob-raw-dump':
                 line = '\t'.join(cells)
-                if all(c == '' for c in cells):
-                    continue
             else:
                 buf = io.StringIO()
                 csv.writer(buf, lineterminator='').writerow(cells)
